@@ -365,7 +365,7 @@ def build_pkg(ps):
         if o['pic']:
             members.append((F + u'Pictures/p%d.png' % o['num'], bytes([o['num'] % 256, 7])))
             man.append((F + u'Pictures/p%d.png' % o['num'], u'image/png'))
-        if o['file']:
+        if o['file'] and not o.get('rich'):
             members.append((F + u'extra.bin', b'x' + bytes([o['num'] % 256])))
             man.append((F + u'extra.bin', u''))
         if o.get('rich'):
@@ -529,7 +529,7 @@ def run(chk, replay=None):
             print('replay: %s: %s' % (sig, d))
         return 1 if any(sig == replay.get('signature') for sig, d in fails) else 0
     chk.assumptions.append('attaching the saved document below another one, or a parent into its own subtree, is outside the model (not generated)')
-    chk.prove(drivers=['drv_pkg'])
+    chk.prove(modules=['OdfModel.Props.C16', 'OdfModel.Props.C16Xml'], drivers=['drv_pkg'])
     drv = chk.driver('drv_pkg')
     n = 5000 if chk.tier == 'thorough' else 700
 
